@@ -124,6 +124,64 @@ def generate(repo):
                 and isinstance(n.value, ast.Tuple) and [getattr(e, "id", None) for e in n.value.elts] == ["offset", "length"]:
             registers = True
 
+
+    # ---- who writes the prefetch flags, and under which lock (every method of SFTPFile)
+    cls = [n for n in ast.walk(tree) if isinstance(n, ast.ClassDef) and n.name == "SFTPFile"][0]
+    writers = []
+
+    def visit(node, meth, locked):
+        if isinstance(node, ast.With) and any(_is_self_attr(i.context_expr, "_prefetch_lock") for i in node.items):
+            locked = True
+        if isinstance(node, (ast.Assign, ast.AugAssign, ast.AnnAssign)):
+            tgts = node.targets if isinstance(node, ast.Assign) else [node.target]
+            for tg in tgts:
+                for a in ("_prefetch_done", "_prefetching"):
+                    if _is_self_attr(tg, a):
+                        v = node.value.value if isinstance(node.value, ast.Constant) else "?"
+                        writers.append((meth, a, v, locked))
+        for ch in ast.iter_child_nodes(node):
+            visit(ch, meth, locked)
+    for m in cls.body:
+        if isinstance(m, ast.FunctionDef):
+            visit(m, m.name, False)
+    expected = [("__init__", "_prefetching", False, False), ("__init__", "_prefetch_done", False, False),
+                ("_read_prefetch", "_prefetching", False, False),
+                ("_start_prefetch", "_prefetching", True, False), ("_start_prefetch", "_prefetch_done", False, False),
+                ("_async_response", "_prefetch_done", True, True)]
+    flag_writers_pinned = sorted(map(repr, writers)) == sorted(map(repr, expected))
+    # _prefetch_thread stores nothing on self except the extent, under the lock
+    thread_stores = []
+
+    def visit_t(node, locked):
+        if isinstance(node, ast.With) and any(_is_self_attr(i.context_expr, "_prefetch_lock") for i in node.items):
+            locked = True
+        if isinstance(node, (ast.Assign, ast.AugAssign, ast.Delete)):
+            tgts = node.targets if not isinstance(node, ast.AugAssign) else [node.target]
+            for tg in tgts:
+                base = tg.value if isinstance(tg, ast.Subscript) else tg
+                if isinstance(base, ast.Attribute) and isinstance(base.value, ast.Name) and base.value.id == "self":
+                    thread_stores.append((base.attr, locked))
+        for ch in ast.iter_child_nodes(node):
+            visit_t(ch, locked)
+    visit_t(pt, False)
+    thread_only_extents = thread_stores == [("_prefetch_extents", True)]
+    # _read_prefetch: `if offset is None: self._prefetching = False; return None` and nothing else there
+    rp = _find_method(tree, "SFTPFile", "_read_prefetch")
+    none_when_unbuffered = False
+    for st in rp.body:
+        if isinstance(st, ast.If) and isinstance(st.test, ast.Compare) and isinstance(st.test.ops[0], ast.Is) \
+                and getattr(st.test.left, "id", "") == "offset" and isinstance(st.test.comparators[0], ast.Constant) \
+                and st.test.comparators[0].value is None and not st.orelse:
+            b = st.body
+            none_when_unbuffered = (len(b) == 2 and isinstance(b[0], ast.Assign) and _is_self_attr(b[0].targets[0], "_prefetching")
+                                    and isinstance(b[1], ast.Return)
+                                    and isinstance(b[1].value, ast.Constant) and b[1].value.value is None)
+    # prefetch() stores nothing on self (no remembered range)
+    pf = _find_method(tree, "SFTPFile", "prefetch")
+    prefetch_stateless = not any(isinstance(n, (ast.Assign, ast.AugAssign)) and any(
+        isinstance(t, ast.Attribute) and isinstance(t.value, ast.Name) and t.value.id == "self"
+        for t in (n.targets if isinstance(n, ast.Assign) else [n.target])) for n in ast.walk(pf))
+
     text = "\n".join([
         "(* generated by gen/c28.py from paramiko/sftp_file.py -- do not edit *)",
         "From Coq Require Import ZArith Bool.",
@@ -139,5 +197,11 @@ def generate(repo):
         "Definition src_start_prefetch_ignores_empty : bool := %s." % _b(guard),
         "Definition src_start_prefetch_sets_flags : bool := %s." % _b(sets_flags),
         "Definition src_thread_registers_request_extent : bool := %s." % _b(registers),
+        "(* _prefetch_done / _prefetching are written only by __init__, _read_prefetch, _start_prefetch (reader",
+        "   thread) and by _async_response under _prefetch_lock *)",
+        "Definition src_prefetch_flag_writers_pinned : bool := %s." % _b(flag_writers_pinned),
+        "Definition src_thread_only_records_extents_under_lock : bool := %s." % _b(thread_only_extents),
+        "Definition src_read_prefetch_none_when_unbuffered : bool := %s." % _b(none_when_unbuffered),
+        "Definition src_prefetch_keeps_no_state : bool := %s." % _b(prefetch_stateless),
         ""])
     return {"C28_gen.v": text}
